@@ -183,6 +183,9 @@ func (a sortableNodeArray) compare(lhs *CandidateNode, rhs *CandidateNode, dateT
 		}
 		return 0
 	} else if (lhsTag == "!!int" || lhsTag == "!!float") && (rhsTag == "!!int" || rhsTag == "!!float") {
+		if order, ok := compareIntWithFloat(lhsTag, lhs.Value, rhsTag, rhs.Value); ok {
+			return order
+		}
 		lhsNum, err := parseNumberForSort(lhsTag, lhs.Value)
 		if err != nil {
 			log.Warningf("Could not parse number %v for sort, sorting by string instead: %v", lhs.Value, err)
@@ -203,6 +206,41 @@ func (a sortableNodeArray) compare(lhs *CandidateNode, rhs *CandidateNode, dateT
 	}
 
 	return strings.Compare(lhs.Value, rhs.Value)
+}
+
+// compareIntWithFloat orders an integer and a floating point number by their exact values. Converting the integer
+// to float64 first rounds it beyond 2^53: 9007199254740993 would equal 9007199254740992.0, which equals
+// 9007199254740992, and the order would no longer be transitive. ok is false when this is not such a pair.
+func compareIntWithFloat(lhsTag string, lhsValue string, rhsTag string, rhsValue string) (order int, ok bool) {
+	if lhsTag == "!!float" && rhsTag == "!!int" {
+		order, ok = compareIntWithFloat(rhsTag, rhsValue, lhsTag, lhsValue)
+		return -order, ok
+	}
+	if lhsTag != "!!int" || rhsTag != "!!float" {
+		return 0, false
+	}
+	_, intNum, err := parseInt64(lhsValue)
+	if err != nil {
+		return 0, false
+	}
+	floatNum, err := parseNumberForSort(rhsTag, rhsValue)
+	if err != nil || math.IsNaN(floatNum) {
+		return 0, false
+	}
+	if floatNum >= 9223372036854775808.0 {
+		return -1, true
+	} else if floatNum < -9223372036854775808.0 {
+		return 1, true
+	}
+	// inside the int64 range the whole part of the float is an int64 and the rest is exact
+	whole := int64(floatNum)
+	rest := floatNum - float64(whole)
+	if intNum < whole || (intNum == whole && rest > 0) {
+		return -1, true
+	} else if intNum > whole || rest < 0 {
+		return 1, true
+	}
+	return 0, true
 }
 
 // integers may be spelt in hex or octal (0x10, 0o7), which ParseFloat does not read
